@@ -544,7 +544,15 @@ func c07WSetup(prm c07WParams) func(c *fw.Ctx, name string) explore.Setup {
 				if prm.Sep {
 					sizeA = 4300 // more than one write buffer: there is more to copy after a flush
 				}
-				w.GoHarness("writerA", true, func() { a.Write(bg, websocket.MessageBinary, bytes.Repeat([]byte{'A'}, sizeA)) })
+				// under C18 both connections are used through the net.Conn adapter
+				write := func(conn *websocket.Conn, p []byte) error {
+					if prm.Prop == "C18" {
+						_, err := websocket.NetConn(bg, conn, websocket.MessageBinary).Write(p)
+						return err
+					}
+					return conn.Write(bg, websocket.MessageBinary, p)
+				}
+				w.GoHarness("writerA", true, func() { write(a, bytes.Repeat([]byte{'A'}, sizeA)) })
 				ctx, cancel := vctx.WithCancel(bg)
 				cancel() // a context that is already over: the call gives up as soon as it has to wait for a lock
 				if !prm.Sep {
@@ -558,7 +566,7 @@ func c07WSetup(prm c07WParams) func(c *fw.Ctx, name string) explore.Setup {
 						nB = 1
 					}
 					for i := 0; i < nB; i++ {
-						bErrs = append(bErrs, b.Write(bg, websocket.MessageBinary, bytes.Repeat([]byte{'B'}, 300)))
+						bErrs = append(bErrs, write(b, bytes.Repeat([]byte{'B'}, 300)))
 					}
 					if prm.Prop == "C16" {
 						b.Close(websocket.StatusNormalClosure, "") // the peer never answers: 5 s virtual
@@ -793,7 +801,7 @@ func c07RaceScenarios(tier string) []scenario {
 }
 
 func init() {
-	for _, prop := range []string{"C01", "C02", "C05", "C16"} {
+	for _, prop := range []string{"C01", "C02", "C05", "C16", "C18"} {
 		scs := c07CrossScenarios(prop)
 		fw.Register(fw.Part{Prop: prop, Name: "s.xconn",
 			Units:  func(tier string) []fw.Unit { return scenarioUnits(scs(tier)) },
